@@ -336,7 +336,8 @@ class NumpyDataWrapper(SourceDataWrapper):
             A structured numpy array, containing the required chunks of all the relevant data sets from the source data.
         """
 
-        if self._dtype == self._data_source.dtype:
+        # (the fields of the source can only stand for the channels when every channel is mapped to the field of its own name)
+        if self._dtype == self._data_source.dtype and all(k == v for k, v in self._mapping.items()):
             if stop is None:
                 stop = self._n_rows
             # start and stop are relative to the loaded window, which begins at from_idx
